@@ -1757,8 +1757,11 @@ static void __cygprof_exit(unsigned long parent, unsigned long child)
 
 	rstack = &mtdp->rstack[mtdp->idx - 1];
 
-	/* discard unpaired cygprof exit (due to compiler bug?) */
-	if (unlikely(!(rstack->flags & MCOUNT_FL_CYGPROF))) {
+	/*
+	 * discard unpaired cygprof exit (due to compiler bug?), also one that
+	 * comes with nothing on the stack: there is no rstack[-1] to look at.
+	 */
+	if (unlikely(mtdp->idx <= 0 || !(rstack->flags & MCOUNT_FL_CYGPROF))) {
 		static pthread_once_t warn_once = PTHREAD_ONCE_INIT;
 
 		pthread_once(&warn_once, warn_unpaired_cygprof);
